@@ -215,7 +215,8 @@ Lemma ens_facts m c la : class_ok c = true -> c_ignored c = false ->
   (c_loader c = true -> isSome (m_loader m) = false /\ isSome (m_cp m) = false /\
      match m_starter m with Some s => (c_pks s && c_nrps c) || (c_nrps s && c_pks c) = false | None => True end) /\
   (c_mod c = true -> isSome (m_cp m) = true -> is_trans_at m = true /\ c_kr c = true) /\
-  (c_cp c = true -> isSome (m_cp m) = true -> double_case la = true).
+  (c_cp c = true -> isSome (m_cp m) = true ->
+     double_case la = true /\ existsb c_cp (m_others m) = false).
 Proof.
   intros Hk Hi. pose proof (class_facts c Hk) as Hf. unfold ensure_suitable, c_xstarter. rewrite Hi. cbn [orb].
   destruct (c_special c) eqn:Esp.
@@ -241,7 +242,8 @@ Proof.
       * intros _. repeat split; intros; try discriminate; exfalso; fin.
     + destruct (c_cp c) eqn:Ec.
       * destruct (isSome (m_cp m)).
-        -- destruct (double_case la); [|discriminate]. intros _. repeat split; intros; try discriminate; reflexivity.
+        -- destruct (existsb c_cp (m_others m)); [discriminate|].
+           destruct (double_case la); [|discriminate]. intros _. repeat split; intros; try discriminate; reflexivity.
         -- intros _. repeat split; intros; discriminate.
       * intros _. repeat split; intros; discriminate.
 Qed.
@@ -300,6 +302,36 @@ Definition cpQ (m : module) (rest : list comp) : Prop :=
         (0 < m_unamb m -> (length B + kk m = length case)%nat)) /\
   (0 < m_unamb m -> m_end m = None /\ (2 <= cnt c_cp (m_comps m))%nat).
 
+(* the carrier proteins of a module are its carrier-protein slot plus those among the others, and the
+   others hold at most one (the second transporter of the documented exception) *)
+Definition cp_count (m : module) : Prop :=
+  cnt c_cp (m_comps m) = (cnt c_cp (m_others m) + (if isSome (m_cp m) then 1 else 0))%nat /\
+  (cnt c_cp (m_others m) <= (if isSome (m_cp m) then 1 else 0))%nat.
+
+Lemma cp_count_two m : cp_count m -> (cnt c_cp (m_comps m) <= 2)%nat.
+Proof. intros [H1 H2]. destruct (isSome (m_cp m)); slia. Qed.
+
+Lemma existsb_false_cnt f (l : list comp) : existsb f l = false -> cnt f l = 0%nat.
+Proof.
+  unfold cnt. induction l as [|x l IH]; cbn; [reflexivity|]. destruct (f x); cbn; [discriminate|exact IH].
+Qed.
+
+Lemma step_ncp m c la m' : class_ok c = true -> cp_count m ->
+  (c_cp c = true -> isSome (m_cp m) = true ->
+     (0 <? double_len la) = true /\ existsb c_cp (m_others m) = false) ->
+  assign m c la = Ok m' -> cp_count m'.
+Proof.
+  intros Hk [H1 H2] F Ha. pose proof (class_facts c Hk) as Hf. unfold cp_count.
+  leaves Ha; rewrite ?cnt_snoc, H1.
+  all: destruct (c_cp c) eqn:Ec.
+  all: try (exfalso; fin; fail).
+  all: cbn [isSome]; rewrite ?Nat.add_0_r.
+  all: try (split; [reflexivity|exact H2]).
+  all: destruct (isSome (m_cp m)) eqn:Es; cbn [negb] in *; try discriminate.
+  all: try (destruct (F eq_refl eq_refl) as [Fa Fb]; apply existsb_false_cnt in Fb; rewrite Fb in *).
+  all: split; slia.
+Qed.
+
 Record LQ (m : module) (rest : list comp) : Prop := mkLQ {
   lq_st : m_starter m = find c_starter (m_comps m);
   lq_lo : m_loader m = find c_loader (m_comps m);
@@ -312,18 +344,21 @@ Record LQ (m : module) (rest : list comp) : Prop := mkLQ {
   lq_mix : L_mix (m_comps m) = true;
   lq_end : forallb c_special (after_first c_end (m_comps m)) = true;
   lq_cpq : cpQ m rest;
-  lq_mod : walk [] (m_comps m) = true
+  lq_mod : walk [] (m_comps m) = true;
+  lq_ncp : cp_count m
 }.
 
 Lemma LQ_empty f rest : LQ (empty_module f) rest.
 Proof.
-  constructor; try reflexivity. split; [cbn; slia|]. cbn. slia.
+  constructor; try reflexivity.
+  - split; [cbn; slia|]. cbn. slia.
+  - split; cbn; slia.
 Qed.
 
 (* the rest of the input matters only while a look-ahead acceptance is pending *)
 Lemma LQ_rest m rest rest' : m_unamb m = 0 -> LQ m rest -> LQ m rest'.
 Proof.
-  intros H0 [? ? ? ? ? ? ? ? ? ? [Hc Hp] ?]. constructor; try assumption.
+  intros H0 [? ? ? ? ? ? ? ? ? ? [Hc Hp] ? ?]. constructor; try assumption.
   split; [|intros; slia]. intros HA. destruct (Hc HA) as [case [Hin [Hmap Hlen]]].
   exists case. split; [exact Hin|]. split; [|intros; slia].
   unfold kk in *. rewrite H0 in *. cbn [Z.to_nat firstn] in *. exact Hmap.
@@ -366,7 +401,7 @@ Lemma step_walk m c rest :
      (is_trans_at m = true /\ c_kr c = true) \/ 0 < m_unamb m) ->
   pair_step (m_comps m) c && mod_ok (m_comps m) c = true.
 Proof.
-  intros HQ Hnn F4. destruct HQ as [Hst Hlo Hcp _ Hatd _ _ _ _ _ [P1 P2] _].
+  intros HQ Hnn F4. destruct HQ as [Hst Hlo Hcp _ Hatd _ _ _ _ _ [P1 P2] _ _].
   assert (Hopen : 0 < m_unamb m -> pair_open (m_comps m) = true /\
                   case_prefix (map lab (since_last c_cp (m_comps m) ++ [c])) = true).
   { intros Hu. destruct (P2 Hu) as [_ Hn]. destruct (P1 Hn) as [case [Hin [Hmap Hlen]]].
@@ -430,7 +465,7 @@ Proof.
     pose proof (pending_head _ _ _ I2 Hu) as Hpl. apply plain_comp in Hpl.
     destruct Hpl as [Hm [_ [Hs [Hl _]]]].
     assert (Ecp : c_cp c = false) by (destruct Hf as [_ [Hf _]]; apply Hf; exact Hm).
-    destruct HQ as [_ _ _ _ _ _ _ _ _ _ [P1 P2] _]. destruct (P2 Hu) as [Hend Hn].
+    destruct HQ as [_ _ _ _ _ _ _ _ _ _ [P1 P2] _ _]. destruct (P2 Hu) as [Hend Hn].
     unfold assign in Ha. rewrite Hs, Hl, Hm in Ha. cbn [andb] in Ha.
     replace (0 <? m_unamb m) with true in Ha by (clear - Hu; lia). inversion Ha; subst m'; clear Ha.
     unfold cpQ, kk in *. cbn [with_comp m_comps m_unamb m_end].
@@ -452,9 +487,9 @@ Proof.
       assert (Hm : c_mod c = false) by (destruct (c_mod c); [destruct (Hfm eq_refl) as [_ [X _]]; discriminate|reflexivity]).
       unfold assign in Ha. rewrite Hs, Hl, Hm, Ecp in Ha. cbn [andb] in Ha.
       replace (0 <? m_unamb m) with false in Ha by (clear - Hu; lia).
-      destruct HQ as [_ _ Hcp _ _ _ _ _ _ _ [P1 P2] _].
+      destruct HQ as [_ _ Hcp _ _ _ _ _ _ _ [P1 P2] _ _].
       destruct (isSome (m_cp m)) eqn:Es; cbn [negb] in Ha.
-      * specialize (F5 eq_refl eq_refl). rewrite double_case_len in F5. rewrite F5 in Ha.
+      * specialize (F5 eq_refl eq_refl). destruct F5 as [F5 _]. rewrite double_case_len in F5. rewrite F5 in Ha.
         inversion Ha; subst m'; clear Ha.
         unfold cpQ, kk. cbn [with_comp m_comps m_unamb m_end].
         rewrite cnt_snoc, since_last_snoc, Ecp.
@@ -505,23 +540,27 @@ Proof.
               (c_xstarter c = true -> nonempty (m_comps m) = false) /\
               (c_loader c = true ->
                  match m_starter m with Some s => (c_pks s && c_nrps c) || (c_nrps s && c_pks c) = false | None => True end) /\
-              (c_mod c = true -> isSome (m_cp m) = true -> (is_trans_at m = true /\ c_kr c = true) \/ 0 < m_unamb m)).
+              (c_mod c = true -> isSome (m_cp m) = true -> (is_trans_at m = true /\ c_kr c = true) \/ 0 < m_unamb m) /\
+              (c_cp c = true -> isSome (m_cp m) = true ->
+                 (0 <? double_len la) = true /\ existsb c_cp (m_others m) = false)).
   { destruct (Z_lt_le_dec 0 (m_unamb m)) as [Hu|Hu].
     - pose proof (pending_head _ _ _ I2 Hu) as Hpl. apply plain_comp in Hpl.
       destruct Hpl as [Hm [_ [Hs [Hl _]]]].
       destruct (proj2 (lq_cpq _ _ HQ) Hu) as [Hend _].
-      repeat split.
+      split; [|split; [|split; [|split]]].
       + intros _. rewrite Hend. reflexivity.
       + unfold c_xstarter. rewrite Hs. discriminate.
       + rewrite Hl. discriminate.
       + intros _ _. right. exact Hu.
+      + intros Hcp'. destruct Hf as [_ [Hf _]]. destruct (Hf Hm) as [_ [X _]]. congruence.
     - replace (0 <? m_unamb m) with false in Hens by (clear - Hu; lia).
-      destruct (ens_facts m c la Hk Hi Hens) as [F2 [F1 [F3 [F4 _]]]].
-      repeat split; try assumption.
+      destruct (ens_facts m c la Hk Hi Hens) as [F2 [F1 [F3 [F4 F5]]]].
+      split; [exact F2|]. split; [exact F1|]. split; [|split].
       + intros Hl. apply (proj2 (proj2 (F3 Hl))).
-      + intros Hm Hcp. left. apply F4; assumption. }
-  destruct F as [F2 [F1 [F3 F4]]].
-  destruct HQ as [Hst Hlo Hcp Hen Hatd Hnlo Hnen Hxs Hmix Hend Hcpq Hmod] eqn:EQ.
+      + intros Hm Hcp. left. apply F4; assumption.
+      + intros Hc' Hcp. destruct (F5 Hc' Hcp) as [Fa Fb]. rewrite double_case_len in Fa. split; assumption. }
+  destruct F as [F2 [F1 [F3 [F4 F5]]]].
+  destruct HQ as [Hst Hlo Hcp Hen Hatd Hnlo Hnen Hxs Hmix Hend Hcpq Hmod Hncp] eqn:EQ.
   constructor.
   - eapply step_st; eassumption.
   - eapply step_lo; eassumption.
@@ -538,12 +577,14 @@ Proof.
     intros Hsp. rewrite <- (find_existsb c_end), <- Hen. apply F2. exact Hsp.
   - eapply step_cpq; try eassumption.
   - rewrite Hc, walk_snoc, Hmod. cbn [app andb]. apply (step_walk m c rest); assumption.
+  - eapply step_ncp; eassumption.
 Qed.
 
 (* ---------- at closure: the specification of the layout ---------- *)
-Lemma LQ_layout m rest : LQ m rest -> m_unamb m = 0 -> layout_weak (m_comps m) = true.
+Lemma LQ_layout m rest : LQ m rest -> m_unamb m = 0 -> layout_spec (m_comps m) = true.
 Proof.
-  intros [Hst Hlo Hcp Hen Hatd Hnlo Hnen Hxs Hmix Hend [P1 _] Hmod] H0.
+  intros [Hst Hlo Hcp Hen Hatd Hnlo Hnen Hxs Hmix Hend [P1 _] Hmod Hncp] H0.
+  unfold layout_spec, L_cp_strict. rewrite (proj2 (Nat.leb_le _ _) (cp_count_two m Hncp)), andb_true_r.
   unfold layout_weak, L_loader, L_end, L_pairs. rewrite Hxs, Hmix, Hend, Hmod, Hnlo, Hnen. cbn [andb].
   assert (Ho : pair_open (m_comps m) = false).
   { unfold pair_open. destruct (2 <=? cnt c_cp (m_comps m))%nat eqn:En; [|reflexivity]. cbn [andb].
@@ -557,7 +598,7 @@ Qed.
 
 (* ================= part C: the statements about build_modules_for_cds and combine_modules ================= *)
 Lemma LQ_set_first b m rest : LQ m rest -> LQ (set_first b m) rest.
-Proof. intros [? ? ? ? ? ? ? ? ? ? ? ?]. constructor; assumption. Qed.
+Proof. intros [? ? ? ? ? ? ? ? ? ? ? ? ?]. constructor; assumption. Qed.
 
 Definition closedB (m : module) : Prop := closedA m /\ LQ m [].
 Definition QB (m : module) (rest : list comp) : Prop := QA m rest /\ LQ m rest.
@@ -591,7 +632,7 @@ Qed.
 
 (* the module rules, and the slots as functions of the components *)
 Definition rules_ok (m : module) : Prop :=
-  layout_weak (m_comps m) = true /\
+  layout_spec (m_comps m) = true /\
   m_starter m = find c_starter (m_comps m) /\ m_loader m = find c_loader (m_comps m) /\
   m_cp m = find c_cp (m_comps m) /\ m_end m = find c_end (m_comps m) /\
   is_trans_at m = spec_trans_at (m_comps m) /\
@@ -600,7 +641,7 @@ Definition rules_ok (m : module) : Prop :=
 Lemma closedB_rules m : closedB m -> rules_ok m.
 Proof.
   intros [[H0 [_ [HF _]]] HL]. split; [eapply LQ_layout; eassumption|].
-  pose proof HL as [Hst Hlo Hcp Hen Hatd _ _ _ _ _ _ _].
+  pose proof HL as [Hst Hlo Hcp Hen Hatd _ _ _ _ _ _ _ _].
   repeat split; try assumption.
   - apply trans_at_tie; assumption.
   - eapply Forall_impl; [|exact HF]. intros c [_ Hi]. exact Hi.
@@ -613,10 +654,17 @@ Proof.
   intros Hc Hb. eapply Forall_impl; [|eapply build_closedB; eassumption]. apply closedB_rules.
 Qed.
 
-(* with at most two carrier proteins the full specification holds *)
-Lemma rules_strict m : rules_ok m -> (cnt c_cp (m_comps m) <= 2)%nat -> layout_spec (m_comps m) = true.
+(* the documented exception is a double transporter: one carrier protein, or two *)
+Lemma rules_cp_two m : rules_ok m -> (cnt c_cp (m_comps m) <= 2)%nat.
 Proof.
-  intros [H _] Hn. unfold layout_spec, L_cp_strict. rewrite H. cbn [andb]. apply Nat.leb_le. exact Hn.
+  intros [H _]. unfold layout_spec, L_cp_strict in H. apply andb_prop in H. apply Nat.leb_le. exact (proj2 H).
+Qed.
+
+Lemma build_cp_at_most_two domains ms :
+  Forall (fun c => c_classified c = true) domains ->
+  build_modules_for_cds domains = Ok ms -> Forall (fun m => (cnt c_cp (m_comps m) <= 2)%nat) ms.
+Proof.
+  intros Hc Hb. eapply Forall_impl; [|eapply build_layout; eassumption]. apply rules_cp_two.
 Qed.
 
 (* ---------- replay keeps the layout invariant ---------- *)
@@ -756,19 +804,14 @@ Proof.
   destruct (HR m Hm) as [H1 H2]. split; [exact H1|]. split; [exact H2|]. split; assumption.
 Qed.
 
-(* the documented exception is not bounded by the code: a third carrier protein is accepted when the
-   registered pair follows it again (finding) *)
-Lemma cp_at_most_two_refuted :
-  exists domains ms m, build_modules_for_cds domains = Ok ms /\ In m ms /\
-    Forall (fun c => c_classified c = true) domains /\
-    cnt c_cp (m_comps m) = 3%nat /\ layout_spec (m_comps m) = false.
-Proof.
-  pose (ds := [mkComp 41 0 0 10; mkComp 1 0 1 20; mkComp 1 0 2 30; mkComp 28 0 3 40; mkComp 11 0 4 50;
-               mkComp 1 0 5 60; mkComp 28 0 6 70; mkComp 11 0 7 80]).
-  exists ds.
-  destruct (build_modules_for_cds ds) as [ms|] eqn:E; [|vm_compute in E; discriminate].
-  destruct ms as [|m [|? ?]]; try (vm_compute in E; discriminate).
-  exists [m], m. split; [reflexivity|]. split; [left; reflexivity|].
-  vm_compute in E. inversion E; subst m. split; [|split]; [|vm_compute; reflexivity..].
-  repeat constructor.
-Qed.
+(* regression (repaired finding F52): a third carrier protein is refused even when the registered pair
+   follows it again - KS ACP ACP LPG Beta ACP LPG Beta is no longer one module with three carrier proteins,
+   the module is closed in front of the third one: [KS,CP,CP,+,+] [CP] [+,+] *)
+Lemma third_cp_refused :
+  exists m1 m2 m3,
+    build_modules_for_cds
+      [mkComp 41 0 0 10; mkComp 1 0 1 20; mkComp 1 0 2 30; mkComp 28 0 3 40; mkComp 11 0 4 50;
+       mkComp 1 0 5 60; mkComp 28 0 6 70; mkComp 11 0 7 80] = Ok [m1; m2; m3] /\
+    map cid (m_comps m1) = [0; 1; 2; 3; 4] /\ map cid (m_comps m2) = [5] /\ map cid (m_comps m3) = [6; 7] /\
+    cnt c_cp (m_comps m1) = 2%nat /\ layout_spec (m_comps m1) = true.
+Proof. do 3 eexists. split; [vm_compute; reflexivity|]. repeat split. Qed.
